@@ -273,6 +273,30 @@ def wiring(chk):
     chk.use_engine(e)
 
 
+REPLAY_GAPS = r'''
+import sys
+sys.path.insert(0, "/verif")
+from contracts.C26_oracle import ORACLE
+exec(ORACLE.split("import itertools, os, tempfile")[0])      # the Tk2Circuit stand-in for this sandbox
+from pytket import Circuit, Qubit, Bit
+from guppylang import guppy
+from guppylang_internals.error import GuppyError
+from guppylang_internals.engine import ENGINE
+c1 = Circuit(); c1.add_qubit(Qubit("q", 0)); c1.add_qubit(Qubit("q", 2)); c1.add_qubit(Qubit("w", 1)); c1.X(Qubit("q", 2))
+c2 = Circuit(1); c2.add_bit(Bit("c", 1)); c2.X(0); c2.Measure(Qubit(0), Bit("c", 1))
+res = {}
+for name, circ in (("qubits_outside_registers", c1), ("bit_outside_register", c2)):
+    try:
+        f = guppy.load_pytket(name, circ, use_arrays=True)
+        f.check()
+        ty = ENGINE.get_parsed(f.id).ty
+        res[name] = f"accepted with signature {ty} for a circuit with {circ.n_qubits} qubits and {circ.n_bits} bits"
+    except GuppyError as ex:
+        res[name] = "rejected:" + type(ex.error).__name__
+print(json.dumps({"violates": any(v.startswith("accepted") for v in res.values()), "observed": res, "required": "every qubit has a parameter and every bit a result, or the circuit is rejected"}))
+'''
+
+
 def signature(chk):
     e = mk_engine(chk)
     e.func_info(PM, "_signature_from_circuit")
@@ -320,6 +344,32 @@ def signature(chk):
         chk.prove_paths(f"_signature_from_circuit[q={qregs},c={cregs},params={nparams},arrays={use_arrays}]:one-borrowed-qubit(-array)-per-qubit(-register)/\\one-angle-per-symbol/\\one-bool-per-bit",
                         paths, post, func=f"{PM}:_signature_from_circuit")
         cnt += 1
+    # qubits / bits that belong to no complete register (pytket lists only registers reg[0..n-1]): in array mode they
+    # have no parameter / result to live in, so the circuit is rejected instead of losing them; flat mode still
+    # has one parameter per qubit and one result per bit
+    e.models["guppylang_internals.checker.errors.generic:UnsupportedError"] = lambda it, a, k: SObj(ClassVal("Diag"), {"kind": "UnsupportedError", "args": tuple(a)})
+    for qregs, nq, cregs, nb in (([1], 2, [], 0), ([], 3, [], 0), ([2], 2, [], 1), ([1], 1, [1], 3), ([2, 1], 4, [1], 1)):
+        for use_arrays in (False, True):
+            def t_gap(it, qregs=qregs, nq=nq, cregs=cregs, nb=nb, use_arrays=use_arrays):
+                f = it.lookup_global(m, "_signature_from_circuit")
+                circ = SObj(PC, {"q_registers": [SObj(ClassVal("Reg", builtin=True), {"size": s_}) for s_ in qregs],
+                                 "c_registers": [SObj(ClassVal("Reg", builtin=True), {"size": s_}) for s_ in cregs],
+                                 "n_qubits": nq, "n_bits": nb, "free_symbols": Builtin("free_symbols", lambda: set())})
+                g = it.ctx.mod_globals(m)
+                g["ENGINE"] = SObj(ClassVal("Eng", builtin=True), {"get_checked": Builtin("get_checked", lambda i: adef)})
+                g["array_type"] = Builtin("array_type", lambda t_, n: ("array", t_, n))
+                g["bool_type"] = Builtin("bool_type", lambda: "BOOL_TY")
+                g["row_to_type"] = Builtin("row_to_type", lambda row: ("row", tuple(row)))
+                g["FunctionType"] = Builtin("FunctionType", lambda ins, out: ("FT", list(ins), out))
+                g["FuncInput"] = Builtin("FuncInput", lambda ty_, fl: (ty_, fl.name if hasattr(fl, "name") else str(fl)))
+                return it.call(f, [circ, None, use_arrays], {})
+
+            def post_gap(p, nq=nq, nb=nb, use_arrays=use_arrays):
+                if use_arrays:
+                    return z3.BoolVal(p.kind == "raise" and p.raised(e, "GuppyError") and getattr(p.value.fields.get("error"), "fields", {}).get("kind") == "UnsupportedError")
+                return z3.BoolVal(p.kind == "return" and isinstance(p.value, tuple) and len(p.value[1]) == nq and p.value[2] == ("row", tuple(["BOOL_TY"] * nb)))
+            chk.prove_paths(f"_signature_from_circuit[registers q={qregs} of {nq} qubits, c={cregs} of {nb} bits, arrays={use_arrays}]:{'rejected(no unit is dropped silently)' if use_arrays else 'one-parameter-per-qubit/one-bool-per-bit'}",
+                            e.explore(t_gap), post_gap, func=f"{PM}:_signature_from_circuit", replay=lambda m_: {"script": REPLAY_GAPS, "input": {}})
     # a stub is accepted iff inputs and output equal the circuit's
     import ast
     src = ast.unparse(m.find("RawPytketDef").body[-1]) if hasattr(m, "find") and m.find("RawPytketDef") else ""
